@@ -143,6 +143,10 @@ class Ctx:
 
     # -- finish -------------------------------------------------------------------------
     def finish(self, level='model_checking', rule=''):
+        # clauses of the specification's growth beyond the listed properties (X0n.*): reported, never a violation
+        for k, v in sorted(self.other_props.items()):
+            if k.startswith('X'):
+                print('EXT-FINDING: %s x%d (outside the listed properties; see DESIGN 20)' % (k, v))
         cov = {
             'states': self.states, 'transitions': self.transitions,
             'traces_validated_against_impl': self.traces,
